@@ -2,6 +2,7 @@ package rules
 
 import (
 	"go/ast"
+	"go/token"
 	"go/types"
 	"sort"
 	"strings"
@@ -64,7 +65,8 @@ func c34(r *core.Run) {
 	r.Explanation = "Decided clauses: (R1) operator composition: for every binary arithmetic, bitwise and comparison ast.Operation, the value-interface method the interpreter calls equals the method called by the VM handler of the instruction the compiler emits for that operation, " +
 		"with the left operand as receiver and the right operand as argument in both engines; (R2) the VM's dispatch switch has an arm for every opcode.Instruction implementation; " +
 		"(R3) the natives registered for the VM's built-in type-bound functions are the same interpreter.Native* implementations the interpreter binds; " +
-		"(R4) methods that InterpreterEnvironment and vmEnvironment both implement are token-identical modulo the environment type, or differ exactly in the reviewed engine-wiring methods; (R5) the interpreter's and the VM's dynamic-cast helpers keep optionals for the same target types."
+		"(R4) methods that InterpreterEnvironment and vmEnvironment both implement are token-identical modulo the environment type, or differ exactly in the reviewed engine-wiring methods; (R5) the interpreter's and the VM's dynamic-cast helpers keep optionals for the same target types; " +
+		"(R6) the peephole matcher looks every instruction of a candidate window up in the jump-target set before continuing (windows never contain or start at … a jump target) and no pattern window contains a jump opcode; (R7) no raw VM.locals / Upvalue.closed slot value is pushed on the operand stack without passing maybeUnwrapImplicitReference."
 	r.NotDecided = "observational equivalence per program (results, errors, events, storage writes)."
 	w := r.W
 	opm := valueOpMethods(w)
@@ -262,6 +264,8 @@ func c34(r *core.Run) {
 	// R5 twin helpers: the cast helpers of both engines unbox optionals under the same guard
 	castUnboxAgreement(r, "R5.castunbox")
 	r.Floor("R5.castunbox", 1)
+	c34Peephole(r)
+	vmImplicitRefRule(r, "R7.implicitref")
 }
 
 // c34Natives: R3 — for every sema.*FunctionName constant bound in both engines, the VM registers the same
@@ -371,4 +375,256 @@ func c34Natives(r *core.Run) {
 	}
 	r.Note("built-in function names bound by both engines and compared: %d", n)
 	r.Floor("R3.natives", 40)
+}
+
+// c34Peephole: R6 — the peephole pass stays inside basic blocks. (a) In PeepholePattern.Match every iteration of the window
+// loop that continues to the next instruction has looked the instruction's offset up in the jump-target set (the lookup
+// dominates every back edge of the loop): an instruction that is skipped lets a jump land inside or at the head of a rewritten
+// window, whose shift patchJumps then mis-applies; (b) no pattern window contains a jump opcode (patchJumps assumes jumps
+// are never rewritten).
+func c34Peephole(r *core.Run) {
+	const rule = "R6.peephole"
+	w := r.W
+	if fn := mustFn(r, rule, "bbq/compiler", "PeepholePattern", "Match"); fn != nil {
+		var jt *ssa.Parameter
+		for _, p := range fn.Params {
+			if _, ok := p.Type().Underlying().(*types.Map); ok {
+				jt = p
+			}
+		}
+		var lookups []*ssa.Lookup
+		core.Instrs(fn, false, func(in ssa.Instruction) {
+			if l, ok := in.(*ssa.Lookup); ok && jt != nil && core.IsParamValue(l.X, jt) {
+				lookups = append(lookups, l)
+			}
+		})
+		if jt == nil || len(lookups) == 0 {
+			r.Bad(rule, core.SSAKey(fn)+": jump-target lookup", fn.Pos(), "the window matcher no longer consults the jump-target set: windows may span basic blocks")
+		} else {
+			ok, why := true, ""
+			nback := 0
+			for _, b := range fn.Blocks {
+				for _, s := range b.Succs {
+					if s.Dominates(b) { // back edge b -> s
+						nback++
+						dom := false
+						for _, l := range lookups {
+							if l.Block().Dominates(b) {
+								dom = true
+							}
+						}
+						if !dom {
+							ok, why = false, "an iteration of the window loop can continue to the next instruction without the jump-target lookup (e.g. the first instruction of the window is exempted): a jump may then target a rewritten window"
+						}
+					}
+				}
+			}
+			if nback == 0 {
+				ok, why = false, "no loop found in the window matcher"
+			}
+			r.Check(ok, rule, core.SSAKey(fn)+": jump-target lookup on every iteration", lookups[0].Pos(), "the lookup dominates every back edge of the window loop", why)
+		}
+	}
+	// (b) no pattern contains a jump opcode
+	jumps := map[string]bool{}
+	if d, p := w.Decl(w.FuncObj("bbq/opcode", "", "IsJump")); d != nil {
+		ast.Inspect(d.Body, func(n ast.Node) bool {
+			cc, ok := n.(*ast.CaseClause)
+			if !ok {
+				return true
+			}
+			for _, e := range cc.List {
+				if _, tn := core.ExprTypeName(e, p.TypesInfo); tn != "" {
+					jumps[strings.TrimPrefix(tn, "Instruction")] = true
+				} else if id, ok := e.(*ast.Ident); ok {
+					jumps[strings.TrimPrefix(id.Name, "Instruction")] = true
+				}
+			}
+			return true
+		})
+	}
+	if len(jumps) < 3 {
+		r.Undecided(rule, "bbq/opcode.IsJump", "the jump instruction set does not resolve")
+		return
+	}
+	cp := w.Pkg("bbq/compiler")
+	npat := 0
+	if cp != nil {
+		for _, f := range cp.Syntax {
+			ast.Inspect(f, func(n ast.Node) bool {
+				cl, ok := n.(*ast.CompositeLit)
+				if !ok {
+					return true
+				}
+				if _, tn := core.ExprTypeName(cl, cp.TypesInfo); tn != "PeepholePattern" {
+					return true
+				}
+				name := ""
+				var bad []string
+				for _, el := range cl.Elts {
+					kv, ok := el.(*ast.KeyValueExpr)
+					if !ok {
+						continue
+					}
+					k, _ := kv.Key.(*ast.Ident)
+					if k == nil {
+						continue
+					}
+					switch k.Name {
+					case "Name":
+						if bl, ok := kv.Value.(*ast.BasicLit); ok {
+							name = strings.Trim(bl.Value, `"`)
+						}
+					case "Opcodes":
+						ast.Inspect(kv.Value, func(m ast.Node) bool {
+							if se, ok := m.(*ast.SelectorExpr); ok && jumps[se.Sel.Name] {
+								bad = append(bad, se.Sel.Name)
+							}
+							return true
+						})
+					}
+				}
+				if name == "" {
+					return true
+				}
+				npat++
+				r.Check(len(bad) == 0, rule, "bbq/compiler pattern "+name+": no jump opcode in the window", cl.Pos(), "window opcodes are not jumps",
+					"the pattern rewrites a jump instruction ("+strings.Join(bad, ", ")+"): patchJumps indexes jumps by their position and assumes they are never rewritten")
+				return true
+			})
+		}
+	}
+	r.Floor(rule, 4)
+}
+
+// vmImplicitRefRule — the VM-internal ImplicitReferenceValue (receiver slot of a bound function) never reaches the operand stack:
+// every value read from VM.locals or from Upvalue.closed that is pushed (or returned by a helper and then pushed) has passed
+// through maybeUnwrapImplicitReference on every path (taint propagation over SSA phis; helpers returning a raw slot value
+// are sources in their callers). A raw implicit reference on the stack fails a Go type assertion in the next member access
+// and surfaces as an internal error only in the VM engine.
+func vmImplicitRefRule(r *core.Run, rule string) {
+	w := r.W
+	fns := w.SrcFuncsIn("bbq/vm")
+	isUnwrap := funcOf(mod+"/bbq/vm", "maybeUnwrapImplicitReference")
+	isPush := methodOf("push", mod+"/bbq/vm.VM")
+	fieldOf := func(fa *ssa.FieldAddr) (string, string) {
+		pt, ok := fa.X.Type().Underlying().(*types.Pointer)
+		if !ok {
+			return "", ""
+		}
+		_, tn := core.TypeName(pt.Elem())
+		st, ok := pt.Elem().Underlying().(*types.Struct)
+		if !ok {
+			return "", ""
+		}
+		return tn, st.Field(fa.Field).Name()
+	}
+	rawReturn := map[*ssa.Function]bool{}
+	var tainted func(fn *ssa.Function) map[ssa.Value]bool
+	tainted = func(fn *ssa.Function) map[ssa.Value]bool {
+		t := map[ssa.Value]bool{}
+		changed := true
+		for changed {
+			changed = false
+			core.Instrs(fn, false, func(in ssa.Instruction) {
+				v, ok := in.(ssa.Value)
+				if !ok || t[v] {
+					return
+				}
+				mark := false
+				switch x := in.(type) {
+				case *ssa.UnOp:
+					if x.Op == token.MUL {
+						switch a := x.X.(type) {
+						case *ssa.IndexAddr:
+							// vm.locals[i]
+							if ld, ok := a.X.(*ssa.UnOp); ok {
+								if fa, ok := ld.X.(*ssa.FieldAddr); ok {
+									if tn, f := fieldOf(fa); tn == "VM" && f == "locals" {
+										mark = true
+									}
+								}
+							}
+						case *ssa.FieldAddr:
+							if tn, f := fieldOf(a); tn == "Upvalue" && f == "closed" {
+								mark = true
+							}
+						}
+					}
+				case *ssa.Phi:
+					for _, e := range x.Edges {
+						if t[e] {
+							mark = true
+						}
+					}
+				case *ssa.Call:
+					if sf := core.StaticFn(x); sf != nil && rawReturn[sf] {
+						mark = true
+					}
+				case *ssa.ChangeInterface:
+					mark = t[x.X]
+				case *ssa.MakeInterface:
+					mark = t[x.X]
+				}
+				if mark {
+					t[v] = true
+					changed = true
+				}
+			})
+		}
+		return t
+	}
+	// summaries: helpers that return a raw slot value (two rounds suffice for helper-of-helper)
+	for round := 0; round < 3; round++ {
+		for _, fn := range fns {
+			if o, _ := fn.Object().(*types.Func); o != nil && isUnwrap(o) {
+				continue
+			}
+			t := tainted(fn)
+			for _, ret := range core.Returns(fn) {
+				for _, res := range ret.Results {
+					if t[res] {
+						rawReturn[fn] = true
+					}
+				}
+			}
+		}
+	}
+	nsrc := 0
+	for _, fn := range fns {
+		t := tainted(fn)
+		if len(t) == 0 {
+			continue
+		}
+		nsrc++
+		ok := true
+		var at token.Pos
+		for _, c := range core.Calls(fn, false) {
+			if !isPush(core.Callee(c)) {
+				continue
+			}
+			for _, a := range c.Common().Args {
+				if t[a] {
+					ok, at = false, c.Pos()
+				}
+			}
+		}
+		if ok && rawReturn[fn] {
+			// raw values may be returned only to callers inside the package, which are checked in turn
+			r.OK(rule, core.SSAKey(fn)+": slot value", fn.Pos(), "returns a raw slot value to its callers, which are checked as sources")
+			continue
+		}
+		r.Check(ok, rule, core.SSAKey(fn)+": slot value", posOr(at, fn.Pos()), "no raw local / upvalue slot value is pushed on the operand stack",
+			"a value read from VM.locals / Upvalue.closed is pushed without maybeUnwrapImplicitReference on some path: an ImplicitReferenceValue can reach the operand stack and the next member access fails with an internal error (VM only)")
+	}
+	r.Floor(rule, 3)
+}
+
+func posOr(ps ...token.Pos) token.Pos {
+	for _, p := range ps {
+		if p.IsValid() {
+			return p
+		}
+	}
+	return token.NoPos
 }
